@@ -28,6 +28,9 @@ RULE = ("base files written by the specification-side writer (classic table / xr
         "{create, update, promise, fulfil, resolve, get, save} with 1-3 saves, failing saves induced by an unfulfilled promise or an "
         "in-file stream value, references drawn from base objects of every storage form and from the references handed out; every "
         "case cached and uncached; judged against the overlay-map specification using the very references the implementation returned; "
+        "storage_save_to (no model): histories with and without a save under an open promise on a File opened through FileOptions, saved "
+        "with File::save_to on a temporary path holding the previous revision: a failing save is an error and leaves the file as it was, a "
+        "successful one leaves exactly the bytes Storage::save yields for the same history; "
         "non-trivial = at least one write and one save; distinct by (options, base, history)")
 CASE_TIMEOUT = 20.0
 MODEL_TIMEOUT = 120.0
@@ -478,6 +481,70 @@ def mk_case(opt, base, h, tags):
                 tags=list(tags) + ["base:" + base.label, "cache:" + opt.decode()])
 
 
+def check_save_to(h):
+    """mode storage_save_to: the history on a File opened through FileOptions, every save through File::save_to on a path that holds
+    the previously saved revision.  From the statement: a save with an unfulfilled promise fails - it must be reported as an error
+    and must not replace what was saved before; a save that succeeds leaves on disk exactly the bytes Storage::save yields for
+    the same history (those bytes are judged by check_history on the twin storage_history case)."""
+    expect_fail, pending, nh = [], set(), 0
+    for op in h.ops:
+        k = op[0]
+        if k == "P":
+            pending.add(nh)
+        elif k == "F":
+            pending.discard(op[1][1])
+        elif k == "S":
+            expect_fail.append(bool(pending))
+        if k in ("C", "U", "Uinfile", "P", "F"):
+            nh += 1
+
+    def chk(r):
+        if r[0] != "OK":
+            return "%s %s" % (r[0], r[1])
+        f = r[1]
+        if len(f) != 3 * len(expect_fail):
+            return "expected %d saves, got %d fields" % (len(expect_fail), len(f))
+        for i, fail in enumerate(expect_fail):
+            res, twin, same = (x.decode("latin-1") for x in f[3 * i:3 * i + 3])
+            size = same[2:] if same.startswith("0:") else "the expected number of"
+            if fail:
+                if not res.startswith("!"):
+                    return ("save %d: File::save_to with an unfulfilled promise must return an error (Storage::save: %s), got %s; the file on disk now has %s bytes"
+                            % (i, twin, res, size))
+                if same != "1":
+                    return "save %d: a failed File::save_to replaced the previously saved file (now %s bytes)" % (i, size)
+            else:
+                if res != "ok" or twin != "ok":
+                    return "save %d: a save with no open promise must succeed: File::save_to %s, Storage::save %s" % (i, res, twin)
+                if same != "1":
+                    return "save %d: the bytes File::save_to left on disk (%s bytes) are not the bytes Storage::save yields for the same history" % (i, size)
+        return None
+    return chk
+
+
+def save_to_cases(rng, tier):
+    n = 3 if tier == "quick" else 40
+    for kind in BASE_KINDS:
+        for i in range(n):
+            base = make_base(rng, *kind)
+            n_saves = rng.choice([1, 2, 3])
+            fail = "promise" if i % 3 != 1 else None
+            h = gen_history(rng, base, rng.randint(max(2, n_saves), 14), n_saves, fail)
+            opt = b"c" if (i + len(kind)) % 2 else b"u"
+            yield Case("storage_save_to", [opt, base.data, h.text()], check=check_save_to(h), model=False,
+                       tags=["save_to", "saves:%d" % n_saves, "fail:%s" % fail, "base:" + base.label, "cache:" + opt.decode()])
+            if fail and i == 0:
+                # the failing save alone: promise, save (fails), fulfil, save
+                h2 = Hist(base)
+                h2.add(b"P", "P")
+                h2.add(b"S", "S")
+                h2.add(b"F h0 i42", "F", ("h", 0), 42)
+                h2.add(b"S", "S")
+                for o in (b"u", b"c"):
+                    yield Case("storage_save_to", [o, base.data, h2.text()], check=check_save_to(h2), model=False,
+                               tags=["save_to", "fail:promise", "minimal", "base:" + base.label, "cache:" + o.decode()])
+
+
 def generate(rng, tier):
     n_hist = 14 if tier == "quick" else 220
     for kind in BASE_KINDS:
@@ -542,6 +609,7 @@ def generate(rng, tier):
         h.add(b"S", "S")
         for opt in (b"u", b"c"):
             yield mk_case(opt, base, h, ["targeted", "read-between-repeated-writes"])
+    yield from save_to_cases(rng, tier)
 
 
 def nontrivial(c):
